@@ -816,6 +816,79 @@ func refusedReplacement(r *rep.Report, via string) {
 
 // ruleLikeFacts: a fact may carry a `rule` property; whatever is ACCEPTED under that key (through
 // facts/add or rules/add) must not stop events from reaching the ordinary rule with the same `when`.
+// hostileProperties: a property of a stored rule written in fact form with a value of the wrong type
+// ({"id":"good","!disabled":"yes"}, a number, null, a map, an array).  Whatever rulio makes of the value,
+// the add and every later event return without a panic, and once the property fact is removed again the
+// rule fires as before.
+func hostileProperties(r *rep.Report, via string) {
+	when := func() map[string]interface{} {
+		return map[string]interface{}{"pattern": map[string]interface{}{"hp": "1"}}
+	}
+	vals := []interface{}{"yes", "true", "", 1.0, 0.0, nil, map[string]interface{}{"a": 1.0}, []interface{}{true}, true, false}
+	props := []string{"!disabled", "!note", "!expires", "!ttl"}
+	for half := 0; half < 2; half++ {
+		kind := drv.Kinds[half]
+		for pi, prop := range props {
+			for vi, v := range vals {
+				var t target
+				switch via {
+				case "loc":
+					t = newLocTarget(kind)
+				case "sys":
+					t = newSysTarget(kind == "linear")
+				default:
+					t = newHTTPTarget(kind == "linear")
+				}
+				good := map[string]interface{}{"when": when(), "action": map[string]interface{}{"code": "'good rule fired'"}}
+				if _, err := t.do(call{Via: via, State: kind, Op: "addRule", Id: "good", Doc: good}); err != nil {
+					r.Violate("", "cannot add an ordinary rule: "+err.Error(), nil)
+					continue
+				}
+				c := call{Via: via, State: kind, Op: "addFact", Id: "", Doc: map[string]interface{}{"id": "good", prop: v}}
+				r.Journal(c)
+				var derr error
+				var pid string
+				returned, pan := drv.Guard(callLimit, func() { pid, derr = t.do(c) })
+				r.Case(true, fmt.Sprint("hostile-property", via, kind, pi, vi))
+				r.Count("hostile_property_values", 1)
+				wit := rep.J{"call": c, "error": drv.ErrStr(derr), "accepted": derr == nil, "stored_as": pid}
+				if !returned || pan != "" {
+					r.Violate("", "adding a property fact with an odd value hangs or panics: "+firstLine(pan), wit)
+					return
+				}
+				for k := 0; k < 2; k++ {
+					var out string
+					var eerr error
+					ret2, pan2 := drv.Guard(callLimit, func() {
+						out, eerr = t.do(call{Via: via, State: kind, Op: "event", Doc: map[string]interface{}{"hp": "1"}})
+					})
+					wit["event_result"], wit["event_error"] = out, drv.ErrStr(eerr)
+					if !ret2 || pan2 != "" {
+						r.Violate("", "an event that meets a rule carrying a property with an odd value hangs or panics: "+firstLine(pan2), wit)
+						return
+					}
+				}
+				if derr == nil {
+					// (a property fact is stored under "!<target>.<property>")
+					t.do(call{Via: via, State: kind, Op: "remFact", Id: "!good." + prop[1:]})
+				}
+				var out string
+				ret3, pan3 := drv.Guard(callLimit, func() {
+					out, _ = t.do(call{Via: via, State: kind, Op: "event", Doc: map[string]interface{}{"hp": "1"}})
+				})
+				if !ret3 || pan3 != "" {
+					r.Violate("", "an event after the odd property was removed hangs or panics: "+firstLine(pan3), wit)
+					return
+				}
+				if !strings.Contains(out, "good rule fired") {
+					wit["event_result_after_removal"] = out
+					r.Violate("", "after the odd property fact was removed again an event no longer reaches the rule", wit)
+				}
+			}
+		}
+	}
+}
+
 func ruleLikeFacts(r *rep.Report, via string) {
 	when := func() map[string]interface{} {
 		return map[string]interface{}{"pattern": map[string]interface{}{"rl": "1"}}
@@ -934,6 +1007,7 @@ func main() {
 			r.WritePartial()
 			refusedReplacement(r, e.Stage)
 			ruleLikeFacts(r, e.Stage)
+			hostileProperties(r, e.Stage)
 			hostileScripts(r, e, e.Stage)
 		}
 		campaign(r, e, e.Stage)
